@@ -63,3 +63,5 @@ func verifDependsOnExact(v any, name string) bool
 func verifBytesSym(name string, max, spare int) []byte
 func verifByteAt(b []byte, i int) byte
 func verifResultOwned(v any) bool
+func verifTraceLeaks(prefix string) int
+func verifTraceClass(class string)
